@@ -3,10 +3,10 @@ From Coq Require Import List NArith Bool String.
 From RareV Require Import Base.Hex Model.Follow Corr.Run.
 Import ListNotations.
 
-(* log entries: (0, hex) append | (1, _) remove | (2, _) create | (3, hex) Read returned data | (4, _) Read returned EOF *)
+(* log entries: (0, hex) append | (1, _) remove | (2, _) create | (3, hex) Read returned data | (4, _) Read returned EOF | (5, _) another entry of the directory was touched *)
 Definition lab (p : N * string) : label :=
   match fst p with
-  | 0%N => LAppend (unhex (snd p)) | 1%N => LRemove | 2%N => LCreate | 3%N => LData (unhex (snd p)) | _ => LEof
+  | 0%N => LAppend (unhex (snd p)) | 1%N => LRemove | 2%N => LCreate | 3%N => LData (unhex (snd p)) | 5%N => LSibling | _ => LEof
   end.
 
 (* c poll reopen tail file-exists-at-start initial-content history | observed: delivered, termination, merged log *)
